@@ -203,6 +203,39 @@ class Lower:
         self.bad('statement not in the subset', st)
 
 
+def scope_aliases(body):
+    """`using X = T;` declared directly in a class body (brace depth 0 of `body`)"""
+    out = {}
+    depth = 0
+    i = 0
+    while i < len(body):
+        ch = body[i]
+        if ch == '{':
+            depth += 1
+        elif ch == '}':
+            depth -= 1
+        elif depth == 0:
+            m = re.match(r'using\s+(\w+)\s*=\s*([^;{}]+);', body[i:])
+            if m and (i == 0 or not (body[i - 1].isalnum() or body[i - 1] == '_')):
+                out[m.group(1)] = norm(m.group(2))
+                i += m.end()
+                continue
+        i += 1
+    return out
+
+
+def strip_scope_aliases(body_raw):
+    """a class body, normalised, with its alias declarations removed and their uses expanded"""
+    aliases = {}
+    for m in re.finditer(r'using\s+(\w+)\s*=\s*([^;{}]+);', body_raw):
+        aliases[m.group(1)] = m.group(2)
+    t = re.sub(r'using\s+\w+\s*=\s*[^;{}]+;', '', body_raw)
+    for _ in range(4):
+        for a, ty in aliases.items():
+            t = re.sub(r'(?<![A-Za-z0-9_:])%s(?![A-Za-z0-9_])' % re.escape(a), ty, t)
+    return norm(t)
+
+
 def struct_body(src, header_re, what):
     ms = list(re.finditer(header_re, src))
     if len(ms) != 1:
@@ -232,6 +265,9 @@ def main():
                 raise mc.Unsupported('%s: parameter list changed: %s' % (name, params))
             ast = mc.parse_function_body(body, TEMPLATES)
             lw = Lower(name, kind)
+            if kind == 'class':
+                cb = struct_body(det, r'struct\s+class_declaration_aux\s*<\s*Policy\s*,\s*detail::types\s*<\s*Class\s*,\s*Bases\s*\.\.\.\s*>\s*>', 'class_declaration_aux<Policy, types<Class, Bases...>>')
+                lw.aliases.update(scope_aliases(cb))
             text = lw.s(ast)
             out[name] = '{| rf_static_info := %s;\n   rf_body :=\n %s |}' % ('true' if lw.static_info else 'false', text)
         # the add_function template is a member of the method template, parameterised by the function alone:
@@ -240,8 +276,10 @@ def main():
         if not m:
             raise mc.Unsupported('add_function is no longer `template<auto Function> struct add_function { explicit add_function(...` inside method')
         # which argument add_definition_ passes on
-        wn = norm(struct_body(core, r'struct\s+add_definition_\s*<\s*Container\s*,\s*true\s*>', 'add_definition_<Container, true>'))
-        wo = norm(struct_body(core, r'struct\s+add_definition_\s*<\s*Container\s*,\s*false\s*>', 'add_definition_<Container, false>'))
+        bn = struct_body(core, r'struct\s+add_definition_\s*<\s*Container\s*,\s*true\s*>', 'add_definition_<Container, true>')
+        bo = struct_body(core, r'struct\s+add_definition_\s*<\s*Container\s*,\s*false\s*>', 'add_definition_<Container, false>')
+        wn = strip_scope_aliases(bn)
+        wo = strip_scope_aliases(bo)
         mw = re.fullmatch(r'add_function<Container::fn>[A-Za-z_][A-Za-z0-9_]*\{&Container::next\};', wn)
         mo = re.fullmatch(r'add_function<Container::fn>[A-Za-z_][A-Za-z0-9_]*(\{nullptr\}|\{\}|);', wo)
         if not mw:
